@@ -92,7 +92,7 @@ Proof. exact lower_times. Qed.
    masks, jumps forwards and backwards (loops) to user labels, with or without a time argument.  Both are
    validated against AstVm itself on every run (Corr.C02.model_run: source body, and raised compiled code).
    For every body of statements covered by [wf_stmt] (assignments with any compound operator over jump-free
-   right-hand sides, ternary assignments, declarations (one variable with a jump-free or ternary initialiser, or any list of
+   or ternary right-hand sides (`v op= c ? a : b` goes through a temporary), declarations (one variable with a jump-free or ternary initialiser, or any list of
    variables each without initialiser or with a jump-free one),
    scope ends, empty statements, conditional / counting / unconditional jumps, labels, interrupts, instruction
    calls with jump-free or ternary arguments (complex arguments go through temporaries that are live across the call and freed after it);
@@ -127,7 +127,7 @@ Proof. exact body_correct_gen. Qed.
 Example C02_body_example :
   let rty := fun _ : Z => TInt in let lty := fun _ : nat => TInt in let libm := fun (_ : unop) (_ : Z) => 0 in
   exists code s' st',
-    lower_body ex_avail true rty lty 20 ex_body (mklst 2 []) = Ok (code, s') /\ length code = 57%nat /\
+    lower_body ex_avail true rty lty 20 ex_body (mklst 2 []) = Ok (code, s') /\ length code = 66%nat /\
     wf_body rty lty 2 ex_body /\ fresh lty (p_mem ex_st0) 2 /\
     sprog gen_optable libm rty lty 0 (Some 0%nat) true 10 ex_body Exec ex_st0 = Ok st' /\
     p_time st' = 40 /\ p_real st' = 60 /\ length (p_log st') = 6%nat /\ regs (p_mem st') 1011 = VInt 27 /\
